@@ -413,6 +413,7 @@ impl ToTokens for UrlConstructionFragment {
       let mut url = self.base_url.clone();
       url.path_segments_mut()
          .map_err(|()| anyhow::anyhow!("URL cannot be a base"))?
+         .pop_if_empty()
          #(#segments)*;
       #query_setter
     };
